@@ -466,3 +466,43 @@ def run_accum(P, rep):
     if not n:
         rep.ob('C12.ACCUM', 'verify_settings/accumulator', True, P.fn('verify_settings', 'EbEncHandle.c').loc(), 'the verdict accumulator of verify_settings is only ever assigned error literals')
     rep.floor('C12.ACCUM', 1)
+
+    run_twin(P, rep)
+
+
+# ---------------- TWIN: several configuration members exist twice in the sequence control set - once inside static_config, which
+# verify_settings range-tests, and once as a member of the control set itself, which the pipeline reads.  Validation means something
+# only if the two stay equal: in copy_api_from_app every store to the copy the pipeline reads is chained with, or takes its value from,
+# the validated copy (and vice versa for stores that do not simply take the caller's value).
+def run_twin(P, rep):
+    f = P.fn('copy_api_from_app')
+    CFG = 'EbSvtAv1EncConfiguration.'
+    SCS = 'SequenceControlSet.'
+
+    def chain(e):
+        out = []
+        e = strip(e)
+        while e is not None and e[0] == 'a' and e[1] == '=':
+            out.append(strip(e[2]))
+            e = strip(e[3])
+        return out, e
+    stores = {}
+    for ev in f.events(('st',)):
+        tg, rhs = chain(ev['e'])
+        flds = [last_field(t) for t in tg if t is not None and t[0] == 'm']
+        for fl in flds:
+            if fl and (fl.startswith(CFG) or fl.startswith(SCS)):
+                stores.setdefault(fl, []).append((ev, set(x for x in flds if x), rhs))
+    names = {k.split('.', 1)[1] for k in stores if k.startswith(SCS)} & {k.split('.', 1)[1] for k in stores if k.startswith(CFG)}
+    if len(names) < 3:
+        raise AnalysisBroken('only %d members are kept both in static_config and in the sequence control set' % len(names))
+    n = 0
+    for nm in sorted(names):
+        for ev, fl, rhs in stores[SCS + nm]:
+            n += 1
+            ok = (CFG + nm) in fl or (rhs is not None and any(x[0] == 'm' and x[1] == CFG + nm for x in subexprs(rhs)))
+            rep.ob('C12.TWIN', '%s=%s' % (nm, pstr(rhs)[:48] if rhs is not None else '?'), ok, f.loc(ev),
+                   ('the copy of %s the pipeline reads is assigned together with (or from) the validated copy' % nm) if ok else
+                   ('copy_api_from_app gives scs_ptr->%s the value %s without giving static_config.%s the same value: verify_settings range-tests static_config.%s, the pipeline uses the other copy, so out-of-range values pass and in-range values can be rejected' %
+                    (nm, pstr(rhs)[:60] if rhs is not None else '?', nm, nm)))
+    rep.floor('C12.TWIN', 6)
